@@ -166,9 +166,9 @@ def problem(draw):
     for i in range(1, nsol):
         for j in range(i):
             if sols[i]["comps"] == sols[j]["comps"]:
-                for c in sols[i]["comps"]:
+                for k, c in enumerate(sols[i]["comps"]):
                     if c[2] != "charge":
-                        c[1] = float("%.3g" % (c[1] * (1.0 + 0.37 * i)))
+                        c[1] = float("%.3g" % (c[1] * (1.0 + 0.37 * i + 0.23 * (k % 4))))      # not proportional either
     if nsol == 1:
         mix = [draw(W([(3, 1.0), (1, 0.5), (1, 2.0)]))]
     else:
@@ -337,6 +337,9 @@ def independent_subset(names, user_phases, smin=0.12):
             kept.append(p)
             continue
         v = {e: c for e, c in phase_elements(p, user_phases).items() if e not in ("H", "O", "e")}
+        if not v:
+            kept.append(p)          # O2(g), H2(g): no mole-balance column besides redox / water
+            continue
         for e in v:
             if e not in els:
                 els.append(e)
